@@ -6,6 +6,7 @@
 //	    | (6) Refresh | (7 (p...)) SetOwned | (8) Revoke | (9 p f t) Request | (10 cerr ((p committed high)...)) MAssign
 //	    | (11 msg) Deliver, msg := (1 p ((f t)...)) | (2 p) | (3) | (4)  | (12) Crash
 //	    | (14 p) RecCrash: next record of p delivered, owner abandoned while (if) blocked on the emission
+//	    | (15 p d) Wild: like Ahead without the restriction (may be on the broadcast grid or beyond to: known finding F11)
 //	    | (13 p d) Ahead: a straggler n+1+|d| ahead of the client's position n, only inside the window and off the broadcast grid
 //
 // obs := (0 (perop ...)), perop := (emits calls sent err acks waits active owned tracker cli)
@@ -235,6 +236,13 @@ func Run(in sx.Tree) sx.Tree {
 			w.in.rc.ProcessEventV(recMsg(p, o))
 		case 3:
 			w.in.rc.ProcessEventV(recMsg(op.At(1).Int(), op.At(2).Int()))
+		case 15:
+			p, d := op.At(1).Int(), op.At(2).Int()
+			if n, ok := w.in.cl.pos[int32(p)]; ok {
+				if _, ok := w.in.rc.ActiveV()[int32(p)]; ok {
+					w.in.rc.ProcessEventV(recMsg(p, n+1+abs(d)))
+				}
+			}
 		case 13:
 			p, d := op.At(1).Int(), op.At(2).Int()
 			if n, ok := w.in.cl.pos[int32(p)]; ok {
